@@ -94,7 +94,9 @@ var (
 	subnet     = netip.MustParsePrefix(subnetPfx + "0/24")
 )
 
-func poolAddr(i int) netip.Addr { return netip.MustParseAddr(fmt.Sprintf("%s%d", subnetPfx, poolBase+i)) }
+func poolAddr(i int) netip.Addr {
+	return netip.MustParseAddr(fmt.Sprintf("%s%d", subnetPfx, poolBase+i))
+}
 
 func macOf(i int) net.HardwareAddr { return net.HardwareAddr{0x02, 0, 0, 0, 0, byte(i + 1)} }
 
@@ -112,8 +114,8 @@ func addrAlphabet(n int) (pool, other []string) {
 		gatewayIP.String(), selfIP.String(),
 		subnetPfx + "50", subnetPfx + "51",
 		fmt.Sprintf("%s%d", subnetPfx, poolBase+n), // first address after the pool
-		subnetPfx + "99",                           // last address before the pool
-		"192.168.11.5",                             // outside the subnet
+		subnetPfx + "99", // last address before the pool
+		"192.168.11.5",   // outside the subnet
 		subnetPfx + "255", subnetPfx + "0",
 	}
 	return pool, other
@@ -453,8 +455,8 @@ type node struct {
 	held map[netip.Addr]holder
 	// heldAfterMsg applies the current message exchange to held.
 	heldAfterMsg func()
-	opIdx    int
-	op      Op
+	opIdx        int
+	op           Op
 }
 
 func (n *node) conf(register bool) *dhcpd.ServerConfig {
@@ -787,7 +789,10 @@ func (n *node) check(before []lease, resvBefore map[string]reservation, replies 
 		if (r.Type != dhcpv4.MessageTypeOffer && r.Type != dhcpv4.MessageTypeAck) || !r.Yi.IsValid() || r.Yi.IsUnspecified() {
 			continue
 		}
-		if h, ok := n.held[r.Yi]; ok && h.mac != mac && h.exp.After(now) {
+		// One-second resolution (the lease time on the wire and the expiry in
+		// leases.json are whole seconds): the last second of a lease is not
+		// judged.
+		if h, ok := n.held[r.Yi]; ok && h.mac != mac && h.exp.Add(-time.Second).After(now) {
 			if err = n.report(kernel.Violationf("address-given-while-held", "the server answered %s to %s although %s was acknowledged that address until t=%s, has not released it and no administrator operation revoked it; table before %v", r, mac, h.mac, h.exp.Sub(kernel.Epoch), sortedStrings(before)), r.Yi.String()); err != nil {
 				return err
 			}
@@ -1460,9 +1465,9 @@ var Prop = &kernel.Property{
 	NonTrivial: func(_ any, c *kernel.Ctx) bool {
 		return c.Probes["dynamic_lease_acked"] > 0 && (c.Faults["clean_restart"] > 0 || c.Faults["clock_jump_past_lease_time"] > 0 || c.Faults["pool_exhausted"] > 0 || c.Probes["static_added"]+c.Probes["static_updated"]+c.Probes["static_removed"] > 0)
 	},
-	Real: []string{"internal/dhcpd: Create, v4Server packet handler (handle, discover/request/decline/release), static-lease HTTP handlers, lease indexes and pool bitset, dbStore/dbLoad + leases.json (renameio) on tmpfs", "github.com/insomniacslk/dhcp/dhcpv4 wire format (requests and replies cross it)"},
-	Stub: []string{"DHCP raw/UDP sockets (fake net.PacketConn capturing replies)", "interface probing of Start (server addresses injected through configureDNSIPAddrs)", "ICMP conflict probe (ICMPTimeout=0)", "DHCP clients (simulated state machines)", "admin HTTP client (handlers called in-process)", "wall clock (synctest fake clock)", "DHCPv6 (disabled)"},
-	Assumptions: []string{"reservations are what the static-lease API itself confirmed with 200", "a lease is unexpired while its expiry is after now; at the exact expiry instant an address counts as taken for the offer-liveness clause only", "addresses merely offered (never acknowledged) do not count as leased for the offer-liveness clause", "expiry is compared at one-second resolution across disk and restart", "all-zero MAC (the implementation's conflict marker) and 8/20-byte hardware addresses are not generated", "after a listed finding that leaves the table persistently corrupt (same lease listed twice) the rest of that case only looks for crashes"},
+	Real:        []string{"internal/dhcpd: Create, v4Server packet handler (handle, discover/request/decline/release), static-lease HTTP handlers, lease indexes and pool bitset, dbStore/dbLoad + leases.json (renameio) on tmpfs", "github.com/insomniacslk/dhcp/dhcpv4 wire format (requests and replies cross it)"},
+	Stub:        []string{"DHCP raw/UDP sockets (fake net.PacketConn capturing replies)", "interface probing of Start (server addresses injected through configureDNSIPAddrs)", "ICMP conflict probe (ICMPTimeout=0)", "DHCP clients (simulated state machines)", "admin HTTP client (handlers called in-process)", "wall clock (synctest fake clock)", "DHCPv6 (disabled)"},
+	Assumptions: []string{"reservations are what the static-lease API itself confirmed with 200", "a lease is unexpired while its expiry is after now; at the exact expiry instant an address counts as taken for the offer-liveness clause only", "addresses merely offered (never acknowledged) do not count as leased for the offer-liveness clause", "expiry is compared at one-second resolution across disk and restart, and the last second of a client's lease is not judged (leases.json and the lease-time option carry whole seconds)", "a client holds an acknowledged address until its lease time runs out, it sends RELEASE/DECLINE, it is NAKed, or an administrator operation / restart removes the lease from the table (those removals are judged by I6/I7)", "all-zero MAC (the implementation's conflict marker) and 8/20-byte hardware addresses are not generated", "after a listed finding that leaves the table persistently corrupt (same lease listed twice, I1/I2/I3 broken, two leases under one hostname, a reserved client answered another address) the rest of that case only looks for crashes; listed findings that heal with the next store or only concern a restart do not end the checking"},
 	FaultKinds:  []string{"clean_restart", "clock_jump_past_lease_time", "pool_exhausted", "client_wrong_server_id"},
 	ProbeNames: []string{"offer", "ack", "nak", "silent", "dynamic_lease_acked", "static_lease_acked", "reply_to_reserved_client", "static_added", "static_added_outside_pool", "static_updated", "static_removed", "static_remove_hit_dynamic", "static_rejected",
 		"decline_reallocated", "release_removed_lease", "discover_new_client_free_address", "offer_recycled_entry", "expired_lease_in_table", "restart_with_leases", "shadow_restart_checked", "held_lease_revoked_by_admin_or_restart", "reservation_dropped_by_restart", "restart_from_stale_disk", "table_dup_seen", "table_invariant_broken_seen", "disk_differs_seen", "ops_after_taint"},
